@@ -64,6 +64,13 @@ class MKID(Detector):
         if reset and self._phase and self._phase._array is not None:
             self.phase.array *= 0
 
+    def replace_data(self, other: "Detector") -> None:
+        """Replace the content of all data containers by the content of another detector."""
+        super().replace_data(other)
+
+        if isinstance(other, MKID):
+            self.phase.update(_get_array_if_initialized(other._phase))
+
     @property
     def geometry(self) -> "MKIDGeometry":
         return self._geometry
